@@ -1,6 +1,27 @@
 package main
 
-import "fmt"
+import (
+	"fmt"
+	"strconv"
+)
+
+func c13ResetJobs(tier string) []*Job {
+	var jobs []*Job
+	N := 20
+	if tier == "thorough" {
+		N = 40
+	}
+	for n := 0; n <= N; n++ {
+		for _, m := range []int{0, 3, 17} {
+			if tier != "thorough" && m == 17 && n%4 != 1 {
+				continue
+			}
+			j := mkJob("reset-n"+strconv.Itoa(n)+"-m"+strconv.Itoa(m), "H_C13_reset", "internal/xxh32", "verif", P("n", n, "m", m))
+			jobs = append(jobs, j)
+		}
+	}
+	return jobs
+}
 
 func init() {
 	checkDefs["C13"] = &CheckDef{
@@ -37,6 +58,7 @@ func init() {
 					}
 				}
 			}
+			jobs = append(jobs, c13ResetJobs(tier)...)
 			return jobs
 		},
 		Bounds: func(tier string) []string {
@@ -48,6 +70,7 @@ func init() {
 				fmt.Sprintf("one-shot ChecksumZero: every length 0..%d, all byte contents symbolic", N),
 				fmt.Sprintf("streaming, step from API-built states: Reset + Write of (0 or 16)+bufused symbolic bytes (bufused 0..15), byte counter then advanced by an arbitrary symbolic multiple of 16 below 2^62, one Write of every length 0..%d (quick: every length to 18, then every third) with symbolic bytes, optional empty Write, Sum32; then a second Write of 0..17 bytes and Sum32", M),
 				"public-API three-way splits of short inputs (all split points) incl. Sum and Reset-reuse",
+				"Reset after a message of every length 0..20 (thorough 40): Sum32/Sum without a Write, after an empty Write and after a Write of 0/3/17 symbolic bytes equal the reference of what was written since the Reset",
 			}
 		},
 		Outside: []string{
